@@ -16,7 +16,7 @@ LEVEL_NOTE = "Exact arithmetic in the theorems; the property's floating-point cl
 TECHNIQUE = 'Lean 4 proof (invariant by induction over operations) + history correspondence + floating-point edge probes on the implementation'
 LEAN_MODULE = "Hg.Props.C05"
 THEOREMS = ["Hg.C05.inv_zero", "Hg.C05.inv_fill", "Hg.C05.inv_add", "Hg.C05.inv_scale", "Hg.C05.inv_fillAll", "Hg.C05.inv_history", "Hg.C05.inv_history_tmpl", "Hg.C05.inv_fillNp",
-            "Hg.C05.inv_reload", "Hg.C05.inv_immut", "Hg.C05.binIndex_lt"]
+            "Hg.C05.inv_reload", "Hg.C05.history_reload", "Hg.C05.inv_immut", "Hg.C05.binIndex_lt"]
 CASES = {"quick": 260, "thorough": 8000}
 RULE = ("operation histories (8..24 ops) over a pool of aggregators of one random tree: row fills, vectorised fills, +, +=, *, "
         "copy(), zero(), JSON round trips, with the invariants evaluated on every live aggregator after every operation; plus, per "
